@@ -23,6 +23,16 @@ type HelperEntity struct {
 
 func one(c <-chan F) []<-chan F { return []<-chan F{c} }
 
+// statefulFn returns a function with a memory: value x call number + everything seen so far.
+func statefulFn() func(F) F {
+	calls, sum := 0.0, 0.0
+	return func(v F) F {
+		calls++
+		sum += v
+		return v*calls + sum
+	}
+}
+
 func mapModel(in []F, f func(F) F) []F {
 	r := []F{}
 	for _, v := range in {
@@ -52,6 +62,37 @@ var Helpers = []*HelperEntity{
 	{Name: "helper.Apply", NIn: 1,
 		Build: func(p []int, in []<-chan F) []<-chan F { return one(helper.Apply(in[0], func(v F) F { return v * v })) },
 		Model: func(p []int, in [][]F) [][]F { return [][]F{mapModel(in[0], func(v F) F { return v * v })} }},
+	// the mapping functions are called once per element, in order: a function with a memory
+	// (running total, call counter) tells a stage that skips, repeats or reorders calls
+	{Name: "helper.MapStateful", NIn: 1,
+		Build: func(p []int, in []<-chan F) []<-chan F { return one(helper.Map(in[0], statefulFn())) },
+		Model: func(p []int, in [][]F) [][]F { return [][]F{mapModel(in[0], statefulFn())} }},
+	{Name: "helper.ApplyStateful", NIn: 1,
+		Build: func(p []int, in []<-chan F) []<-chan F { return one(helper.Apply(in[0], statefulFn())) },
+		Model: func(p []int, in [][]F) [][]F { return [][]F{mapModel(in[0], statefulFn())} }},
+	{Name: "helper.OperateStateful", NIn: 2,
+		Build: func(p []int, in []<-chan F) []<-chan F {
+			f := statefulFn()
+			return one(helper.Operate(in[0], in[1], func(a, b F) F { return f(a - 2*b) }))
+		},
+		Model: func(p []int, in [][]F) [][]F {
+			f := statefulFn()
+			return [][]F{zip2(in[0], in[1], func(a, b F) F { return f(a - 2*b) })}
+		}},
+	{Name: "helper.FilterStateful", NIn: 1,
+		Build: func(p []int, in []<-chan F) []<-chan F {
+			k := 0
+			return one(helper.Filter(in[0], func(v F) bool { k++; return k%3 != 0 }))
+		},
+		Model: func(p []int, in [][]F) [][]F {
+			r := []F{}
+			for i, v := range in[0] {
+				if (i+1)%3 != 0 {
+					r = append(r, v)
+				}
+			}
+			return [][]F{r}
+		}},
 	{Name: "helper.ApplyFamily", NIn: 1, // Abs, Sign, KeepPositives, IncrementBy, MultiplyBy, DivideBy, DecrementBy, Pow, Sqrt, RoundDigits
 		Build: func(p []int, in []<-chan F) []<-chan F {
 			c := helper.DecrementBy(in[0], 3)
